@@ -7,7 +7,8 @@ git merge -q $b -m "Merge $b" 2>&1 | grep -i "conflict"
 for f in $(git diff --name-only --diff-filter=U); do
   case $f in
     evidence/*|MANIFEST.json) git checkout --ours $f;;
-    fixes/README.md|DESIGN.md|known_findings.json) sed -i '/^<<<<<<< /d; /^=======$/d; /^>>>>>>> /d' $f;;
+    known_findings.json) python3 tools/merge_kf.py $b;;
+    fixes/README.md|DESIGN.md) sed -i '/^<<<<<<< /d; /^=======$/d; /^>>>>>>> /d' $f;;
     .setup.log) git rm -q --cached $f; rm -f $f;;
     *) echo "UNRESOLVED $f";;
   esac
